@@ -105,8 +105,10 @@ Inductive node :=
 
 (* cont: per inode, content tag * 1024 + permission bits; dmode: permission bits of
    directories by location (latest entry wins, default 0755) *)
+(* fstamp / dstamp: the time last set explicitly (utimes) on a file (by inode) / directory (by
+   location); 0 = never.  Implicit updates of times by writes are not modelled. *)
 Record fsys := mkFS { ents : list (path * node); cont : list (nat * N); nexti : nat;
-                      dmode : list (path * N) }.
+                      dmode : list (path * N); fstamp : list (nat * N); dstamp : list (path * N) }.
 
 Fixpoint lookup_ents (l : list (path * node)) (p : path) : option node :=
   match l with
@@ -121,6 +123,7 @@ Fixpoint lookup_cont (l : list (nat * N)) (i : nat) : N :=
   | (j, c) :: r => if Nat.eqb j i then c else lookup_cont r i
   end.
 Definition content (f : fsys) (i : nat) : N := lookup_cont (cont f) i.
+Definition file_stamp (f : fsys) (i : nat) : N := lookup_cont (fstamp f) i.
 
 Fixpoint lookup_dmode (l : list (path * N)) (p : path) : N :=
   match l with
@@ -129,21 +132,33 @@ Fixpoint lookup_dmode (l : list (path * N)) (p : path) : N :=
   end.
 Definition dir_mode (f : fsys) (p : path) : N := lookup_dmode (dmode f) p.
 
+Fixpoint lookup_dstamp (l : list (path * N)) (p : path) : N :=
+  match l with
+  | [] => 0%N
+  | (q, t) :: r => if path_eqb q p then t else lookup_dstamp r p
+  end.
+Definition dir_stamp (f : fsys) (p : path) : N := lookup_dstamp (dstamp f) p.
+
 Definition enc (tag mode : N) : N := (tag * 1024 + mode)%N.
 
 Definition del_ents (l : list (path * node)) (p : path) : list (path * node) :=
   filter (fun e => negb (path_eqb (fst e) p)) l.
 
 Definition set_ent (p : path) (n : node) (f : fsys) : fsys :=
-  mkFS ((p, n) :: del_ents (ents f) p) (cont f) (nexti f) (dmode f).
+  mkFS ((p, n) :: del_ents (ents f) p) (cont f) (nexti f) (dmode f) (fstamp f) (dstamp f).
 Definition del_ent (p : path) (f : fsys) : fsys :=
-  mkFS (del_ents (ents f) p) (cont f) (nexti f) (dmode f).
+  mkFS (del_ents (ents f) p) (cont f) (nexti f) (dmode f) (fstamp f) (dstamp f).
 Definition set_cont (i : nat) (c : N) (f : fsys) : fsys :=
-  mkFS (ents f) ((i, c) :: cont f) (nexti f) (dmode f).
+  mkFS (ents f) ((i, c) :: cont f) (nexti f) (dmode f) (fstamp f) (dstamp f).
 Definition new_file (p : path) (c : N) (f : fsys) : fsys :=
-  mkFS ((p, NFile (nexti f)) :: del_ents (ents f) p) ((nexti f, c) :: cont f) (S (nexti f)) (dmode f).
+  mkFS ((p, NFile (nexti f)) :: del_ents (ents f) p) ((nexti f, c) :: cont f) (S (nexti f)) (dmode f)
+       (fstamp f) (dstamp f).
 Definition set_dmode (p : path) (m : N) (f : fsys) : fsys :=
-  mkFS (ents f) (cont f) (nexti f) ((p, m) :: dmode f).
+  mkFS (ents f) (cont f) (nexti f) ((p, m) :: dmode f) (fstamp f) (dstamp f).
+Definition set_fstamp (i : nat) (t : N) (f : fsys) : fsys :=
+  mkFS (ents f) (cont f) (nexti f) (dmode f) ((i, t) :: fstamp f) (dstamp f).
+Definition set_dstamp (p : path) (t : N) (f : fsys) : fsys :=
+  mkFS (ents f) (cont f) (nexti f) (dmode f) (fstamp f) ((p, t) :: dstamp f).
 Definition new_dir (p : path) (m : N) (f : fsys) : fsys :=
   set_dmode p (N.land m 493) (set_ent p NDir f).   (* umask 022 *)
 
@@ -151,12 +166,12 @@ Definition has_child (f : fsys) (p : path) : bool :=
   existsb (fun e => match strip_prefix p (fst e) with Some (_ :: _) => true | _ => false end) (ents f).
 
 (* what an observer sees at a location *)
-Inductive view := VNone | VDir (m : N) | VFile (c : N) | VSym (d : str).
+Inductive view := VNone | VDir (m t : N) | VFile (c t : N) | VSym (d : str).
 Definition view_at (f : fsys) (p : path) : view :=
   match lookup f p with
   | None => VNone
-  | Some NDir => VDir (dir_mode f p)
-  | Some (NFile i) => VFile (content f i)      (* content tag and permission bits *)
+  | Some NDir => VDir (dir_mode f p) (dir_stamp f p)
+  | Some (NFile i) => VFile (content f i) (file_stamp f i)   (* content tag + permission bits, time set *)
   | Some (NSym d _ _) => VSym d
   end.
 
@@ -242,6 +257,18 @@ Definition chmod_at (f : fsys) (ns : list name) (m : N) : option fsys :=
   | _ => None
   end.
 
+(* os.Chtimes (follows links; errors are ignored by the caller; a zero time changes nothing) *)
+Definition chtimes_at (f : fsys) (ns : list name) (t : N) : fsys :=
+  match t with
+  | 0%N => f
+  | _ =>
+    match awalk f ns true with
+    | WFile _ i => set_fstamp i t f
+    | WDir p => set_dstamp p t f
+    | _ => f
+    end
+  end.
+
 (* os.Remove *)
 Definition remove_at (f : fsys) (ns : list name) : option fsys :=
   match awalk f ns false with
@@ -258,10 +285,19 @@ Record cfg := mkCfg {
   fixA : bool;   (* resolveWritePath returns the cleaned path it validated *)
   fixR : bool;   (* link entry that would replace the unpack directory itself refused *)
   fixN : bool;   (* ensureDirNoSymlink: directories are created element by element, existing links refused *)
-  fixW : bool    (* removeSymlink: an existing symbolic link is replaced, not written through *)
+  fixW : bool;   (* removeSymlink: an existing symbolic link is replaced, not written through *)
+  fixT : bool    (* Chtimes only when the extracted path is not a symbolic link *)
 }.
-Definition cfg_fixed := mkCfg true true true true true.
-Definition cfg_prefix := mkCfg false false false false false.
+Definition cfg_fixed := mkCfg true true true true true true.
+Definition cfg_prefix := mkCfg false false false false false false.
+
+Definition touch (g : cfg) (f : fsys) (fp : list name) (t : N) : fsys :=
+  if fixT g then
+    match lookup f fp with
+    | Some (NSym _ _ _) => f
+    | _ => chtimes_at f fp t
+    end
+  else chtimes_at f fp t.
 
 (* ensureDirNoSymlink(base, target): Lstat each element below [cur]; missing ones are created
    with os.Mkdir, links and files are refused *)
@@ -386,7 +422,7 @@ Definition chmod_if (pres : bool) (r : option fsys) (fp : list name) (m : N) : o
   | None => None
   end.
 
-Definition extract_entry (g : cfg) (pres : bool) (cwd : path) (dp : list name) (dirName : str) (f : fsys) (e : entry)
+Definition extract_entry_core (g : cfg) (pres : bool) (cwd : path) (dp : list name) (dirName : str) (f : fsys) (e : entry)
   : option fsys :=
   match resolve_rel f dp dirName (entry_name e) with
   | None => None
@@ -395,6 +431,7 @@ Definition extract_entry (g : cfg) (pres : bool) (cwd : path) (dp : list name) (
     let self := match rel with [] => fixR g | _ => false end in
     match e with
     | EReg _ c m =>
+      if self then None else
       match (if fixW g then unlink_if_symlink f fp else Some f) with
       | None => None
       | Some f0 => chmod_if pres (write_at f0 (Nms fp) c m) fp m
@@ -414,6 +451,19 @@ Definition extract_entry (g : cfg) (pres : bool) (cwd : path) (dp : list name) (
       | Some _ => match tgt with [] => None | _ => do_symlink f fp (sym_node tgt) end
       end
     | EOther _ => Some f
+    end
+  end.
+
+(* one archive entry with header time [t]: the content, then Chtimes (not for skipped types) *)
+Definition extract_entry (g : cfg) (pres : bool) (cwd : path) (dp : list name) (dirName : str) (f : fsys)
+  (e : entry) (t : N) : option fsys :=
+  match extract_entry_core g pres cwd dp dirName f e with
+  | None => None
+  | Some f1 =>
+    match e, entry_rel dp dirName (entry_name e) with
+    | EOther _, _ => Some f1
+    | _, Some rel => Some (touch g f1 (dp ++ rel) t)
+    | _, None => Some f1
     end
   end.
 
@@ -440,7 +490,7 @@ Definition narrow_base (f : fsys) (dp : list name) (m : N) : option fsys :=
    archive, without PreservePermissions, the unpack directory (created by the caller with the
    default mode) is narrowed to the mode recorded for it. *)
 Fixpoint extract (g : cfg) (pres : bool) (cwd : path) (dp : list name) (dirName : str) (f : fsys) (es : list entry)
-  (base : option N) : fsys * bool :=
+  (ts : list N) (base : option N) : fsys * bool :=
   match es with
   | [] =>
     match base with
@@ -449,10 +499,10 @@ Fixpoint extract (g : cfg) (pres : bool) (cwd : path) (dp : list name) (dirName 
     | None => (f, true)
     end
   | e :: r =>
-    match extract_entry g pres cwd dp dirName f e with
+    match extract_entry g pres cwd dp dirName f e (hd 0%N ts) with
     | None => (f, false)
     | Some f' =>
-      extract g pres cwd dp dirName f' r
+      extract g pres cwd dp dirName f' r (tl ts)
               (match root_dir_mode dp dirName e with Some m => Some m | None => base end)
     end
   end.
@@ -461,9 +511,9 @@ Fixpoint extract (g : cfg) (pres : bool) (cwd : path) (dp : list name) (dirName 
 
 Inductive pushop :=
 | PBlob (title : str) (c : N)
-| PDir (title : str) (es : list entry).
+| PDir (title : str) (ts : list N) (es : list entry).   (* ts: header times of the entries *)
 
-Definition push_title (o : pushop) : str := match o with PBlob t _ => t | PDir t _ => t end.
+Definition push_title (o : pushop) : str := match o with PBlob t _ => t | PDir t _ _ => t end.
 
 (* absPath + resolveWritePath: raw components of the (absolute) target, or None = ErrPathTraversalDisallowed *)
 Definition write_path (g : cfg) (wd : path) (title : str) : option (list comp) :=
@@ -476,7 +526,15 @@ Record store := mkStore { st_fs : fsys; st_names : list str }.
 Definition push (g : cfg) (pres : bool) (wd cwd : path) (s : store) (o : pushop) : store * bool :=
   let title := push_title o in
   match title with
-  | [] => (s, true)      (* no name: fallback storage, no file-system effect *)
+  | [] =>   (* no name: fallback content-addressed storage, no file-system effect; the same
+               blob twice is "already exists" (recorded under a name no title can have) *)
+    match o with
+    | PBlob _ c =>
+      let mk := [0%N; c] in
+      if existsb (str_eqb mk) (st_names s) then (s, false)
+      else (mkStore (st_fs s) (mk :: st_names s), true)
+    | PDir _ _ _ => (s, true)
+    end
   | _ =>
   if existsb (str_eqb title) (st_names s) then (s, false) else
   match write_path g wd title with
@@ -487,31 +545,48 @@ Definition push (g : cfg) (pres : bool) (wd cwd : path) (s : store) (o : pushop)
     | PBlob _ c =>
       let dir := clean_abs (removelast raw) in
       let made := match (if fixN g then strip_prefix wd dir else None) with
-                  | Some rel => mkdir_real f wd rel 511
+                  | Some rel =>   (* ensureDirNoSymlink: os.MkdirAll(base), then element by element *)
+                    match mkdir_all f (Nms wd) 511 with
+                    | Some f0 => mkdir_real f0 wd rel 511
+                    | None => None
+                    end
                   | None => mkdir_all f (Nms dir) 511
                   end in
       match made with
       | None => (s, false)
       | Some f1 =>
-        match (if fixW g then unlink_if_symlink f1 (clean_abs raw) else Some f1) with
+        match (if fixW g && negb (path_eqb (clean_abs raw) wd)
+               then unlink_if_symlink f1 (clean_abs raw) else Some f1) with
         | None => (mkStore f1 (st_names s), false)
         | Some f1' =>
           match write_at f1' raw c 438 with
           | None => (mkStore f1' (st_names s), false)
-          | Some f2 => (mkStore f2 (title :: st_names s), true)
+          | Some f2 =>
+            match c with
+            | 0%N =>   (* content tag 0 = content that fails verification: the file is removed again *)
+              match remove_at f2 (clean_abs raw) with
+              | Some f3 => (mkStore f3 (st_names s), false)
+              | None => (mkStore f2 (st_names s), false)
+              end
+            | _ => (mkStore f2 (title :: st_names s), true)
+            end
           end
         end
       end
-    | PDir _ es =>
+    | PDir _ ts es =>
       let dp := clean_abs raw in
       let made := match (if fixN g then strip_prefix wd dp else None) with
-                  | Some rel => mkdir_real f wd rel 511
+                  | Some rel =>   (* ensureDirNoSymlink: os.MkdirAll(base), then element by element *)
+                    match mkdir_all f (Nms wd) 511 with
+                    | Some f0 => mkdir_real f0 wd rel 511
+                    | None => None
+                    end
                   | None => mkdir_all f raw 511
                   end in
       match made with
       | None => (s, false)
       | Some f1 =>
-        let '(f2, ok) := extract g pres cwd dp title f1 es None in
+        let '(f2, ok) := extract g pres cwd dp title f1 es ts None in
         (mkStore f2 (if ok then title :: st_names s else st_names s), ok)
       end
     end
